@@ -36,6 +36,8 @@ MARKER_TABLE = [
     ("# NoCl: reason", True, "mixed-case + trailing text"), ("// nocl", True, "plain"), ("//nocl", True, "no-space"),
     ("//   NOCL", True, "spaces + upper-case"), ("/* nocl */", True, "plain"), ("/*nocl*/", True, "no-space"), ("/* NoCl */", True, "mixed-case"),
     ("# see nocl", False, "mentions-later"), ("// this is not nocl", False, "mentions-later"), ("/* x nocl */", False, "mentions-later"),
+    ("# foo # nocl", False, "mentions-later"), ("// bar // nocl", False, "mentions-later"), ("/* a /* nocl */", False, "mentions-later"),
+    ("# x; nocl", False, "mentions-later"),
     ("# TODO", False, "other"), ("#", False, "empty"), ("// no cl", False, "other"), ("# nolc", False, "other"),
 ]
 
